@@ -76,11 +76,17 @@ class C11(Engine):
                     vals[k] = MASK if rng.random() < 0.25 else self._val(k, tid, uniq[0])
                 overlay = None
                 if nk == 0 or rng.random() < 0.25:
+                    # the live dict an alias receives as env= : often still empty on entry (and on exit), filled from inside
                     overlay = {}
-                    for ok in rng.sample(KEYS, rng.choice((1, 1, 2))):
+                    for ok in rng.sample(KEYS, rng.choice((0, 0, 1, 1, 1, 2))):
                         uniq[0] += 1
                         overlay[ok] = MASK if rng.random() < 0.35 else self._val(ok, tid, uniq[0])
                 ops.append({"op": "swap", "vals": vals, "overlay": overlay, "how": rng.choice(("pos", "kw", "mixed")), "exit": rng.choice(("normal", "normal", "raise")), "body": self.gen_ops(rng, tid, depth + 1, budget, uniq)})
+            elif r < 0.40 and depth > 0:
+                # the alias body writes into / deletes from the overlay dict it was handed
+                uniq[0] += 1
+                ok = rng.choice(KEYS)
+                ops.append({"op": "ovset", "key": ok, "val": rng.choice((MASK, "__DROP__", self._val(ok, tid, uniq[0]), self._val(ok, tid, uniq[0])))})
             elif r < 0.62:
                 ops.append({"op": "probe", "key": rng.choice(KEYS + (f"P{tid}",))})
             elif r < 0.74:
@@ -271,6 +277,17 @@ class C11(Engine):
                 elif kind == "probe_all":
                     for key in KEYS + (f"P{state['tid']}",):
                         probe(state, key, w)
+                elif kind == "ovset":
+                    if state.get("ovs"):
+                        rd, ml = state["ovs"][-1]
+                        if op["val"] == "__DROP__":
+                            rd.pop(op["key"], None)
+                            ml.pop(op["key"], None)
+                        else:
+                            rd[op["key"]] = real(op["val"])
+                            ml[op["key"]] = op["val"]
+                        probes["overlay_filled_inside"] = probes.get("overlay_filled_inside", 0) + 1
+                        probe(state, op["key"], w)
                 elif kind == "launch":
                     launch(state, op["env"], w)
                 elif kind in ("set", "del") and (len(started) > sum(1 for t_ in started.values() if not t_.is_alive()) or state["tid"] != 0):
@@ -289,7 +306,9 @@ class C11(Engine):
                     probes["exit_by_exception"] += int(op["exit"] == "raise")
                     before = {key: view(state, key) for key in KEYS + (f"P{state['tid']}",)}
                     rv = {k2: real(v2) for k2, v2 in vals.items()}
-                    ov = {k2: real(v2) for k2, v2 in op["overlay"].items()} if op["overlay"] else None
+                    has_ov = op["overlay"] is not None
+                    ov = {k2: real(v2) for k2, v2 in op["overlay"].items()} if has_ov else None
+                    probes["empty_overlay_scope"] = probes.get("empty_overlay_scope", 0) + int(has_ov and not op["overlay"])
                     if op["how"] == "pos":
                         cm = env.swap(rv, overlay=ov)
                     elif op["how"] == "kw":
@@ -300,10 +319,11 @@ class C11(Engine):
                     try:
                         with cm:
                             state["stack"].append(layer)
-                            if op["overlay"]:
+                            if has_ov:
                                 ovl = dict(op["overlay"])
                                 ovl["__overlay__"] = True
                                 state["stack"].append(ovl)
+                                state.setdefault("ovs", []).append((ov, ovl))
                             in_scope_threads.add(state["tid"])
                             for key in list(vals) + [k2 for k2 in (op["overlay"] or ()) if k2 not in vals]:
                                 probe(state, key, w + ":entered")
@@ -313,8 +333,9 @@ class C11(Engine):
                     except _Boom:
                         pass
                     finally:
-                        if op["overlay"]:
+                        if has_ov:
                             state["stack"].pop()
+                            state["ovs"].pop()
                         state["stack"].pop()
                         if not state["stack"]:
                             in_scope_threads.discard(state["tid"])
@@ -322,9 +343,8 @@ class C11(Engine):
                         return
                     # exit restores: every read path as before entry (persist keys follow the model)
                     for key in KEYS:
-                        now = view(state, key)
-                        if now != before[key]:
-                            viol("exit.restores", f"model inconsistency for {key}")  # cannot happen
+                        # (the model's own view may differ from `before` when the body wrote into an enclosing overlay dict;
+                        #  what is judged is that every read path shows what the remaining scopes say)
                         probe(state, key, w + ":after-exit")
                     probe(state, f"P{state['tid']}", w + ":after-exit")
                 # spawn points
